@@ -38,6 +38,7 @@ func init() {
 			ruleKeywordLookupExact(r)
 			ruleLabelRegexAnchoring(r) // a label regexp is compiled anchored, a line regexp unanchored, whatever else uses the same text
 			ruleParserOptionsReachLexer(r)
+			ruleScannerIdentRune(r)
 		},
 	})
 }
